@@ -231,7 +231,11 @@ func (r *rhpRig) syncAll() {
 }
 
 // mine confirms the pool in n blocks.
-func (r *rhpRig) mine(n int) {
+func (r *rhpRig) mine(n int) { r.mineOpt(n, true) }
+
+// mineOpt is mine; with syncHost false the host's wallet is not told about
+// the new blocks (its chain manager has them).
+func (r *rhpRig) mineOpt(n int, syncHost bool) {
 	for i := 0; i < n; i++ {
 		p := snapPool(r.e, r.inv, r.s.cm)
 		tipNode := r.tree.ByID[r.s.cm.Tip().ID]
@@ -255,6 +259,12 @@ func (r *rhpRig) mine(n int) {
 			// the renter's node catches up with the host's chain
 			r.rs.cm.AddBlocks(blocksOf(r.tree.ByID[blk.ID()].PathFromGenesis()[1:]))
 		}
+	}
+	if !syncHost {
+		syncWallet(r.e, r.inv, r.rs, r.rw, r.rst, 1000, func() int { return 100 })
+		synctest.Wait()
+		r.tip = r.tree.ByID[r.s.cm.Tip().ID]
+		return
 	}
 	r.syncAll()
 }
